@@ -306,7 +306,7 @@ def long_haul(ctx, r):
 
 REQUEST_FAMILIES = [
     # (current spelling, legacy spellings) - the same few requests in every order
-    ("Mcf/d", ["1000ft3/d", "k(ft3)/d"]), ("lbmol", ["lbmole"]), ("N.s/m", ["Ns/m"]), ("MMm3", ["M(m3)"]), ("kg/gmol", ["kg/gmole"]), ("m", []), ("degC", []),
+    ("Mcf/d", ["1000ft3/d", "k(ft3)/d"]), ("lbmol", ["lbmole"]), ("N.s/m", ["Ns/m"]), ("MMm3", ["M(m3)"]), ("kg/gmol", ["kg/gmole"]), ("m", []), ("degC", []), ("<unknown>", []), ("s", []),
 ]  # fmt: skip
 
 
@@ -329,7 +329,10 @@ def request_orders(ctx, r, n_orders):
         for u in [cur] + legs:
             forms += [(u, c0, None), (u, None, None), (u, c0, "cap"), (u, None, "cap")]
             forms += [(u, c, None) for c in others]
-        forms = [("ObtainQuantity",) + f for f in forms] + [("Scalar",) + f for f in forms if f[2] is None][:4]
+        if db0.GetDefaultUnit(c0) == cur:
+            # the unit left out: "the default unit of the category" - with and without a caption, and with an empty caption
+            forms += [(None, c0, None), (None, c0, "cap"), (cur, c0, ""), (None, c0, "")]
+        forms = [("ObtainQuantity",) + f for f in forms] + [("Scalar",) + f for f in forms if f[2] is None and f[0] is not None][:4]
         for k in range(n_orders):
             order = list(forms)
             r.shuffle(order)
@@ -366,7 +369,7 @@ def request_orders(ctx, r, n_orders):
                 # same (category, unit, caption) named -> equal, hash-equal; otherwise unequal
                 for (ra, qa, _fa), (rb, qb, _fb) in itertools.combinations(got, 2):
                     ctx.ev()
-                    same = (ra[2] or c0, ra[3] if True else None) == (rb[2] or c0, rb[3])
+                    same = (ra[2] or c0, ra[3] or None) == (rb[2] or c0, rb[3] or None)  # (an empty caption is no caption)
                     if same and not (qa == qb and hash(qa) == hash(qb)):
                         ctx.violation("request-order:same-category-unit-caption-not-equal", {"a": list(ra), "b": list(rb), "qa": repr(qa), "qb": repr(qb)})
                     if not same and qa == qb:
